@@ -65,6 +65,13 @@ open_("D18a", "C16", "integer division or modulo by zero panics (types/core.rs:1
 open_("D18f", "C16", "an expression nested a few thousand levels deep (NOT NOT ..., parentheses) overflows the stack: the process aborts", "O-live:process-died", "nesting_deeper_than_200", "findings/D18f-deeply-nested-expression-overflows-the-stack.json")
 open_("D35", "C16", "INSERT INTO t SELECT * FROM t never returns (the scan sees the rows it inserts)", "O-live:hang", "insert_select_from_same_table", "findings/D35-insert-select-from-same-table-never-returns.json")
 
+# ---- open findings: plans and indexes (C06) ----
+open_("J1", "C06", "an equi-join loses matching rows when either input holds a NULL in the join column (the wrapped key, which forces a nested-loop join, returns them)", "O-plan", "join_on_column_holding_null", "findings/J1-equi-join-with-null-join-key-loses-matches.json")
+open_("U2b", "C06", "DELETE and re-INSERT of a UNIQUE key inside an open transaction hides the committed row from every other transaction's index lookups until the commit", "O-plan", "unique_key_reuse_while_session_open", "findings/U2b-delete-and-reinsert-of-key-in-open-txn-hides-committed-row-from-index-lookups.json")
+for prop in ("C06",):
+    open_("D7", prop, "any UPDATE of a table that has a PRIMARY KEY / UNIQUE index fails with 'datatype mismatch ... BigUInt'", "O-res", "update_on_table_with_unique_index", "findings/D7-update-on-table-with-unique-index.json")
+    open_("U1b", prop, "a key left behind by a failed multi-row INSERT and inserted again is missed by index lookups (k = K returns nothing)", "O-res", "collision_with_key_of_rolled_back_insert", "findings/U1b-key-of-failed-insert-reinserted-is-missed-by-index-lookup.json")
+
 # ---- open findings: storage shapes (C12 and everything that stores rows) ----
 open_("D31b", "C12", "rows whose payload needs overflow pages break the tree within a handful of inserts (panic at storage/core/buffer.rs:570, 'Buffer overflow ... on a btreepage')", "O-res", "rows_with_overflow_chains", "findings/D31b-rows-with-overflow-chains-break-the-tree-within-a-few-inserts.json")
 open_("D17b", "C15", "ALTER TABLE ... DROP COLUMN of the last column can leave the table unreadable (panic at storage/tuple.rs:297)", "O-state", "alter_drop_column", "findings/D17b-alter-drop-last-column-leaves-table-unreadable.json")
